@@ -257,10 +257,31 @@ def to_xml_value(v, rng):
     return {'t': t, 'v': copy.deepcopy(p)}
 
 
+def fixed_documents():
+    """hand-written conformant documents for combinations the random encoder reaches too rarely: every string-like element
+    spelling x line ends written as character references x CDATA / text mixes. ProtectedString 'MUST have its contents
+    maintained exactly' (docs/xml.md); expat and every conforming parser deliver &#13; as a CR that is NOT normalised."""
+    docs = []
+    bodies = [('crlf-charref', 'a&#13;\nb&#xD;\n', 'a\r\nb\r\n'), ('cr-only-charref', 'a&#13;b&#13;', 'a\rb\r'), ('lf-only', 'a\nb\n', 'a\nb\n'),
+              ('crlf-in-cdata-plus-charref', '<![CDATA[x]]>&#13;\ny', 'x\r\ny'), ('tab-and-nbsp', '&#9;t\u00a0', '\tt\u00a0'), ('leading-trailing-charref-space', '&#32;s&#32;', ' s ')]
+    for tag in ('string', 'ProtectedString'):
+        for label, raw, val in bodies:
+            text = ('<roblox version="4"><Item class="Script" referent="RBX0"><Properties><%s name="Source">%s</%s><string name="Name">n</string></Properties></Item></roblox>'
+                    % (tag, raw, tag))
+            exp = {'roots': [{'class': 'Script', 'name': 'n', 'props': {'Source': {'t': 'String', 'v': val}}, 'children': []}]}
+            docs.append({'id': 'fixed.%s.%s' % (tag, label), 'origin': {'fixed': label, 'element': tag}, 'fmt': 'xml', 'text': text, 'expected': exp,
+                         'tags': ['fixed-document', 'fixed.' + tag + '.' + label]})
+    return docs
+
+
 def make_files(args):
     cases_path, files_path, seed = args
     n = 0
     with open(files_path, 'w') as out:
+        if files_path.endswith('-0.jsonl'):
+            for d in fixed_documents():
+                out.write(json.dumps(d) + '\n')
+                n += 1
         for line in open(cases_path):
             rec = json.loads(line)
             if rec.get('kind') != 'logical':
